@@ -277,6 +277,18 @@ class _RoutingDelegate(httputil.HTTPMessageDelegate):
             self.delegate.on_connection_close()
 
 
+def _ends_with_anchor(pattern: str) -> bool:
+    """Returns True if ``pattern`` ends with an unescaped ``$``.
+
+    A trailing ``\\$`` (as produced by ``re.escape``) is a literal dollar sign,
+    not an anchor.
+    """
+    if not pattern.endswith("$"):
+        return False
+    body = pattern[:-1]
+    return (len(body) - len(body.rstrip("\\"))) % 2 == 0
+
+
 class _DefaultMessageDelegate(httputil.HTTPMessageDelegate):
     def __init__(self, connection: httputil.HTTPConnection) -> None:
         self.connection = connection
@@ -524,7 +536,7 @@ class HostMatches(Matcher):
 
     def __init__(self, host_pattern: str | Pattern) -> None:
         if isinstance(host_pattern, basestring_type):
-            if not host_pattern.endswith("$"):
+            if not _ends_with_anchor(host_pattern):
                 host_pattern += "$"
             self.host_pattern = re.compile(host_pattern)
         else:
@@ -559,7 +571,7 @@ class PathMatches(Matcher):
 
     def __init__(self, path_pattern: str | Pattern) -> None:
         if isinstance(path_pattern, basestring_type):
-            if not path_pattern.endswith("$"):
+            if not _ends_with_anchor(path_pattern):
                 path_pattern += "$"
             self.regex = re.compile(path_pattern)
         else:
@@ -619,7 +631,7 @@ class PathMatches(Matcher):
         pattern = self.regex.pattern
         if pattern.startswith("^"):
             pattern = pattern[1:]
-        if pattern.endswith("$"):
+        if _ends_with_anchor(pattern):
             pattern = pattern[:-1]
 
         if self.regex.groups != pattern.count("("):
